@@ -255,6 +255,10 @@ class C10(HostProp):
                         for other in KINDS:
                             if other != sw and inv.get(other) == inv.get(sw) and not inv[other].startswith("~"):
                                 inv[other] = "./" + inv[other]
+            if cli == "assembler" and rng.chance(0.06):
+                # a failure in the middle of a save: a name that cannot be stored (a character that does not fit in a byte)
+                inv["name"] = rng.choice(["\u20acURO", "GAME\u03a9", "\u4e2d"])
+                inv["lines"] = [l for l in inv["lines"] if " NAM " not in l]
             if not fault_used and rng.chance(0.2):
                 inv["read_error"] = p
                 inv["errno"] = rng.choice(["EACCES", "EIO"])
@@ -355,6 +359,10 @@ class C09(HostProp):
             op = {"op": "asm", "lines": small_program(rng, name=name, org=rng.choice([None, 0x0E00, 0x3F00, 0xF000]),
                                                       size=rng.choice([None, None, 255, 2294, 2299, 4603, 5000]), nam=rng.chance(0.5)),
                   "name": name, kind: path, "append": append}
+            if rng.chance(0.05):
+                # an addition that has to fail in the middle of the save: a name that cannot be stored
+                op["name"] = rng.choice(["\u20acURO", "GAME\u03a9"])
+                op["lines"] = [l for l in op["lines"] if " NAM " not in l]
             if rng.chance(0.25):
                 # more output switches in the same invocation, onto fresh side paths: each target is judged on its own, so
                 # a refusal of one must not keep the others from being written
